@@ -95,6 +95,11 @@ impl Pages {
         self.truncate(0);
     }
 
+    /// Whether the in-memory index differs from what `flush` last wrote.
+    pub fn has_changes(&self) -> bool {
+        self.change_at.is_some()
+    }
+
     pub fn truncate(&mut self, page_index: usize) -> Option<Page> {
         let page = self.get(page_index).cloned();
         self.vec.truncate(page_index);
